@@ -76,7 +76,7 @@ CHECKS["C15"] = dict(
          "append, and readings on the retained candles equal to the untrimmed twin's for all 27 kinds - with the class's look-back plus "
          "slack retained, and, for the indicators that are purely recursive once seeded, on a stream that thins out after warm-up so "
          "that the window holds only two or three candles (one predecessor).",
-    note="Clause 2 is proved for thirteen classes without helper series (the ten of the one-reading theorem plus HL, Donchian, AROON: a whole calculate() on the retained list); "
+    note="Clause 2 is also proved at run level for VWAP, StandardDeviation and RSI (one managed helper series; look-back 1 resp. period candles). Clause 2 is proved for thirteen classes without helper series (the ten of the one-reading theorem plus HL, Donchian, AROON: a whole calculate() on the retained list); "
          "for the other classes it is decided by correspondence + falsifier. Axioms: none.",
     technique="Coq proof (drop-while = filter on sorted lists) + vm_compute correspondence + falsifier",
     design="5/C15")
@@ -119,7 +119,7 @@ CHECKS["C02"] = dict(
 CHECKS["C04"] = dict(
     text="Theorems over the reals (round-half-even on round_value decimals, Flocq) about the recurrence specifications of SMA/EMA/RMA/WMA: "
          "EMA and RMA obey r[t] = a x[t] + (1-a) r[t-1] within half a unit of the last decimal, SMA its incremental law, seeds are the "
-         "rounded window mean, WMA is the rounded weighted mean with weights period..1 over period(period+1)/2, the series HMA smooths is 2*WMA(period/2) - WMA(period), no reading before `period` "
+         "rounded window mean, WMA is the rounded weighted mean with weights period..1 over period(period+1)/2, the series HMA smooths is 2*WMA(period/2) - WMA(period), the first SMA/EMA reading and every WMA reading lie inside any grid interval containing the window, no reading before `period` "
          "consecutive inputs, EMA stays inside the range of its inputs, and (for every "
          "NumOps instance) position independence. The recurrence specs are tied to the code by their own bit-exact correspondence "
          "(check_spec) and the engine model by check_ind; falsifier = independent textbook references incl. late-starting and zero-valued inputs.",
